@@ -6,75 +6,75 @@ props = [json.loads(l) for l in open(os.path.join(V, "properties.jsonl"))]
 
 CLAIMS = {
  "C01": dict(
-    text="Decides structural necessary conditions of BLTE identity on every path: each cipher block index an encoder hands out derives from the chunk's global position (the decoder's enumerate index), mode-byte / supported-mode / cipher-type tables agree between encoder and decoder, decoder size bounds equal the documented cap, chunk-table fields derive from the chunk they describe. Does not decide that compress/decompress or encrypt/decrypt are inverse functions (value level).",
+    text="Decides structural necessary conditions of BLTE identity on every path: each cipher block index an encoder hands out derives from the chunk's global position (the decoder's enumerate index), mode-byte / supported-mode / cipher-type tables agree between encoder and decoder, decoder size bounds equal the documented cap, chunk-table fields derive from the chunk they describe. Does not decide that compress/decompress or encrypt/decrypt are inverse functions (value level). Also: the decoder's block index enumerates the unfiltered chunk list.",
     note="Trusted: rustc MIR; flow-insensitive slices; anchors by (type, method). Not decided: codec inverses, boundary sizes, >4 GiB casts.",
     technique="MIR backward slicing (provenance of the block index), table extraction from SwitchInt/discriminants, sibling agreement", ref="§3 C01"),
  "C02": dict(
-    text="Decides, over the call-graph closure of every byte-parser entry (role discovery, 240+ entries, 800+ bodies): no explicit panic API is reachable; no allocation size derives from an input integer wider than 16 bits without any bound (min/clamp, ordering comparison, pinning check, possibly in a validate()-style callee). Index/slice bounds, overflow and loop termination are NOT decided (no value-range domain) and are reported as not analysed.",
-    note="Trusted: dependency-aware over-approximate dispatch; per-(struct,field)/per-local taint; sufficiency of a bound is not judged. Two panic sites are discharged by exact key with a written reason.",
-    technique="call-graph reachability (E-reach) + interprocedural taint slicing with sanitizer idioms (E-slice)", ref="§3 C02"),
+    text="Decides, over the call-graph closure of every byte-parser entry (role discovery, 240+ entries, 800+ bodies): no explicit panic API is reachable (R1); no allocation size derives from an input integer wider than 16 bits without a bound, binrw-argument sizes being decided at the parser callers (R2); every slice / array / Vec index, range index, split_at and copy_from_slice is PROVEN in bounds by a relational abstract interpretation (E-bounds: linear facts over immutable value atoms, helper preconditions checked at call sites, validator postconditions) or, when unproven and its index or length derives from parser input, reported unless discharged by key with the missing arithmetic written down and its premise re-checked (R3); no u8/u16/u32 addition or multiplication on input-derived operands can exceed its type (R4). Unproven sites that do not derive from input, wide-integer overflow, subtraction underflow and loop termination are NOT decided and are counted in the evidence.",
+    note="Trusted: dependency-aware over-approximate dispatch; per-(struct,field)/per-local taint; E-bounds models integers as mathematical values and containers by (local, version) with conservative invalidation; helper preconditions are checked at in-closure call sites only. 3 R3 sites, 1 R2 site and 2 R1 sites are discharged by exact key with a written reason.",
+    technique="call-graph reachability (E-reach) + interprocedural taint slicing with sanitizer idioms (E-slice) + relational abstract interpretation of index bounds over MIR (E-bounds, rules/bounds.py)", ref="§3 C02"),
  "C03": dict(
-    text="Decides two sibling-agreement clauses only: the root header-layout predicate of the version detector equals the reader's (comparison atoms on the first two u32 values), and every archive-index page-to-entry mapping uses the footer-derived records-per-page. Lookup correctness itself is value-level and not decided.",
+    text="Decides two sibling-agreement clauses only: the root header-layout predicate of the version detector equals the reader's (comparison atoms on the first two u32 values), and every archive-index page-to-entry mapping uses the footer-derived records-per-page. Lookup correctness itself is value-level and not decided. Also: the k-way archive-group merge advances the popped source on every iteration path; every FileDataId delta decoder reachable from the root block parsers yields one id per delta.",
     note="Trusted: atom extraction from Bin comparisons / Range::contains incl. promoted constants. Everything else in C03 is declared not decided.",
     technique="sibling cross-check of extracted predicate atoms (E-table)", ref="§3 C03"),
  "C04": dict(
-    text="Decides on every path: the archive read snapshot is re-established after a growing write unless skipped by a pure fresh-length vs mapped-length comparison; decoded bytes never flow into a second BLTE decoder; write-position/index bookkeeping only after a successful archive write with that write's results; the reader sniffs the writer's own record layout first; index de-duplication keeps the newest record. Byte equality and reopen behaviour are not decided.",
+    text="Decides on every path: the archive read snapshot is re-established after a growing write unless skipped by a pure fresh-length vs mapped-length comparison; decoded bytes never flow into a second BLTE decoder; write-position/index bookkeeping only after a successful archive write with that write's results; the reader sniffs the writer's own record layout first; index de-duplication keeps the newest record. Byte equality and reopen behaviour are not decided. Also: the Err of every fallible persistence call (save/flush/sync/write/rename/append/put) in cascette-client-storage is propagated or escapes - swallow sites are a frozen, reasoned table of 7 (E-err); the index lookup precedence of C05.R3 is an obligation here as well.",
     note="Trusted: decoder discovery by transitive BlteFile::parse callers within the crate; anchors by (type, method).",
     technique="MIR must-pass-through on the CFG, forward value flow between decoder calls, result-edge gating", ref="§3 C04"),
  "C05": dict(
-    text="Decides structural necessary conditions of the persistent-map property on every path of the analysed functions: no capacity-limited append result is dropped (so a mutator's bool cannot lie), add_entry's flush-and-retry shape, update-section-first / newest-first / tombstone precedence with sibling agreement, latest-wins de-duplication, dirty marking of every ResidencyDb mutator and clear-after-rename in save, superset maintenance of the residency fast-path filter. Does not decide map equivalence over histories (value level).",
+    text="Decides structural necessary conditions of the persistent-map property on every path of the analysed functions: no capacity-limited append result is dropped (so a mutator's bool cannot lie), add_entry's flush-and-retry shape, update-section-first / newest-first / tombstone precedence with sibling agreement, latest-wins de-duplication, dirty marking of every ResidencyDb mutator and clear-after-rename in save, superset maintenance of the residency fast-path filter. Does not decide map equivalence over histories (value level). Also: the flush merge matches every update key (tombstones included) against the sorted section; save_all / flush_all_updates persist every bucket.",
     note="Trusted: rustc MIR + callee resolution; rules/c05.py tables (method names matched by (type, method)); flow-insensitive slices. Not decided: merge ordering, reload equality.",
     technique="MIR dataflow: result-consumption (E-gate), must-pass-through on CFG, iterator-direction typing, who-may-call on a field", ref="§3 C05"),
  "C06": dict(
-    text="Decides the publish protocol of every save routine on all CFG paths (= all crash points between steps): temp path distinct from destination, truncating create, explicit BufWriter flush before sync, sync on every path to the rename with its error edge not reaching the rename, no write after sync, rename only after the writer's Ok; no in-place rewrite of checksummed state in the state modules; loaders filter on the final name. Does not execute crashes; what a reopen shows is not decided.",
+    text="Decides the publish protocol of every save routine on all CFG paths (= all crash points between steps): temp path distinct from destination, truncating create, explicit BufWriter flush before sync, sync on every path to the rename with its error edge not reaching the rename, no write after sync, rename only after the writer's Ok; no in-place rewrite of checksummed state in the state modules; loaders filter on the final name. Does not execute crashes; what a reopen shows is not decided. Also: on no definition path is the written file the destination itself; a previous-generation file is deleted only after the replacement was written successfully; loaders never read or probe a temp-suffixed path.",
     note="Trusted: POSIX rename/fsync semantics; modelled-externals table (fs/tokio::fs/libc calls) in rules/c06.py; holder tracking of the File through BufWriter/refs. Directory fsync not required by the property.",
     technique="MIR must-pass-through / ordering analysis between file creation, flush, sync and rename; who-writes-in-place discovery", ref="§3 C06"),
  "C07": dict(
-    text="Decides: every discovered digest-comparing validator that protects an object the property lists has a caller on a load path and lies on every loader-loop iteration; its failing edge cannot reach an accepting return and its verdict is never discarded; the validated buffer is the one parsed afterwards; comparisons are full width; validate_with_hooks reports valid for a keyed value only through validate_content or the validated flag; skip hooks are pure functions of size; the content-addressed cache serves/stores only through the is_valid edge. That each protected byte is covered by the digest is not decided.",
+    text="Decides: every discovered digest-comparing validator that protects an object the property lists has a caller on a load path and lies on every loader-loop iteration; its failing edge cannot reach an accepting return and its verdict is never discarded; the validated buffer is the one parsed afterwards; comparisons are full width; validate_with_hooks reports valid for a keyed value only through validate_content or the validated flag; skip hooks are pure functions of size; the content-addressed cache serves/stores only through the is_valid edge. That each protected byte is covered by the digest is not decided. Also: a pre-validated keyed value is minted only behind a successful validation; validators that receive the stored bytes hash those bytes (no re-serialisation); an optional epilogue checksum is skipped only through the None edge of its own Option; no read_exact into a provably empty buffer; a validator inside an iterator closure is quantified over all items; the hook fast path is taken only on the validated flag's true edge (edge-sensitive).",
     note="Trusted: validator discovery (digest call + comparison in one body); in-scope table keyed by (type, method) with the protected object's name.",
     technique="validator discovery + call-graph callers + result-edge gating (E-gate) + loop coverage (E-dom)", ref="§3 C07"),
  "C10": dict(
-    text="Decides: every config limit in the slice of an eviction trigger is in the slice of the eviction size (else the limit can never be enforced) and the target is not clamped upward; every serving path passes an expiry test whose expired edge does not serve, expired disk entries lose their file; every map insert/remove/clear is paired, on the same path and conditional on its own result, with the matching update of both counters on the cache's own fields. Numeric bounds after each operation are not decided.",
+    text="Decides: every config limit in the slice of an eviction trigger is in the slice of the eviction size (else the limit can never be enforced) and the target is not clamped upward; every serving path passes an expiry test whose expired edge does not serve, expired disk entries lose their file; every map insert/remove/clear is paired, on the same path and conditional on its own result, with the matching update of both counters on the cache's own fields. Numeric bounds after each operation are not decided. Also: every path of every single-key put* to an Ok return passes the store (map insert or delegated put); persistence errors in cascette-cache are not swallowed (E-err).",
     note="Trusted: map/counter identification by field name tables per cache type; option_edges for if-let / is_some forms.",
     technique="backward slices over config fields (sibling agreement trigger vs sizing), must-pass-through, paired-effect analysis on Option result edges", ref="§3 C10"),
  "C11": dict(
-    text="Decides structural race windows that exist on every schedule: removal acting on a check whose guard/lock section ended without re-validation, byte deltas taken from a stale snapshot, temp-name sharing in routines reachable through &self, lock re-entrancy / lock-order cycles / sync guards across await, non-atomic load..store counter updates, non-exclusive archive allocation. Linearizability itself needs schedules and is not decided.",
+    text="Decides structural race windows that exist on every schedule: removal acting on a check whose guard/lock section ended without re-validation, byte deltas taken from a stale snapshot, temp-name sharing in routines reachable through &self, lock re-entrancy / lock-order cycles / sync guards across await, non-atomic load..store counter updates, non-exclusive archive allocation. Linearizability itself needs schedules and is not decided. Also: no insert of a value read from the same map under a released guard (snapshot write-back); no exact read sized by a path-based stat; counter decrements sit on the success edge of a removal; a temp name keeps its destination's file name.",
     note="Trusted: lock identity by (struct, field); guard liveness on pre-borrowck MIR; receiver-type reasoning for exclusivity (&mut self).",
     technique="guard-liveness dataflow (E-lock), dominance between look and removal, provenance slices of counter deltas, lock-order graph", ref="§3 C11"),
  "C12": dict(
-    text="Decides on every path: no lock is re-acquired (directly or transitively in a callee) while its guard is live (self-deadlock => 'every call returns' fails on all schedules); validation failure/error edges never reach a serving return or a layer put and purge the key first; layers are searched first-to-last with miss/error fall-through; remove/clear/batch operations run the per-layer/per-item operation on every loop iteration; no sync guard across await. Does not decide coherence over histories with eviction.",
+    text="Decides on every path: no lock is re-acquired (directly or transitively in a callee) while its guard is live (self-deadlock => 'every call returns' fails on all schedules); validation failure/error edges never reach a serving return or a layer put and purge the key first; layers are searched first-to-last with miss/error fall-through; remove/clear/batch operations run the per-layer/per-item operation on every loop iteration; no sync guard across await. Does not decide coherence over histories with eviction. Also: the validation hook fast path (shared with C07.R5).",
     note="Trusted: lock identity by (struct, field) with &self denoting one object; modelled lock APIs (std, parking_lot, tokio, dashmap) in rules/locks.py; pre-borrowck MIR drop placement.",
     technique="guard-liveness dataflow + transitive acquire summaries over the call graph (E-lock); edge-reachability gating on Result/bool switches", ref="§3 C12"),
  "C13": dict(
-    text="Decides on every path: HTTPS->HTTP->TCP order, a later protocol only through the earlier one's Err edge and should_retry()==true on that error, success returns at once; cache store unreachable from error edges, stored bytes derive from the built network answer, every successful answer passes the store; validation and cache lookup dominate the network; should_retry's variant/status table contains no definitive refusal; the Ribbit read loop re-evaluates its format sniff per segment. TTL timing and full segmentation independence are not decided.",
+    text="Decides on every path: HTTPS->HTTP->TCP order, a later protocol only through the earlier one's Err edge and should_retry()==true on that error, success returns at once; cache store unreachable from error edges, stored bytes derive from the built network answer, every successful answer passes the store; validation and cache lookup dominate the network; should_retry's variant/status table contains no definitive refusal; the Ribbit read loop re-evaluates its format sniff per segment. TTL timing and full segmentation independence are not decided. Also: a present V1-MIME epilogue checksum is always validated before the answer is accepted (shared with C07.R10); the document parsers in the clients are given the wire bytes, not a lossily decoded text.",
     note="Trusted: protocol identification by the self field the receiver slices back to; transient-variant table taken from the property text. wasm32 variants not analysed.",
     technique="dominator / edge-reachability analysis on the coroutine CFG, table extraction from SwitchInt (E-table)", ref="§3 C13"),
  "C14": dict(
-    text="Decides for RetryPolicy::execute: closed-form attempt bound from counter init, unique +1 per back edge and the exit comparison; every backoff value incl. the initial one is capped by max_backoff; no panicking float->Duration conversion on an unclamped policy value; retry only after should_retry(); Retry-After precedence with an unfiltered hint accessor; jitter in [0,0.3] and added; 429/5xx mapping of closures run under the policy. Wall-clock delays are not decided.",
+    text="Decides for RetryPolicy::execute: closed-form attempt bound from counter init, unique +1 per back edge and the exit comparison; every backoff value incl. the initial one is capped by max_backoff; no panicking float->Duration conversion on an unclamped policy value; retry only after should_retry(); Retry-After precedence with an unfiltered hint accessor; jitter in [0,0.3] and added; 429/5xx mapping of closures run under the policy. Wall-clock delays are not decided. Also: the always-retryable ServerError is built only on the is_server_error() edge; the retry hint is read from the Retry-After header only.",
     note="Trusted: loop/counter extraction on Analysis(Initial) MIR (tracing expansions ignored via from_expansion); f64::min/max absorb NaN.",
     technique="loop-counter extraction and closed form (E-table), clamp-presence slices (E-slice), edge gating", ref="§3 C14"),
  "C15": dict(
-    text="Decides: no explicit panic reachable from server entry points; every socket read under a timeout and a size bound; one spawned task per connection and no error edge leaves the accept loop; header/row column arity equal and typed columns fed by validated fields (syn AST of format! templates + MIR of BuildRecord::validate); newest build = descending build_time; request arity tests are equalities. End-to-end field equality is not decided.",
+    text="Decides: no explicit panic reachable from server entry points; every socket read under a timeout and a size bound; one spawned task per connection and no error edge leaves the accept loop; header/row column arity equal and typed columns fed by validated fields (syn AST of format! templates + MIR of BuildRecord::validate); newest build = descending build_time; request arity tests are equalities. End-to-end field equality is not decided. Also: a count-returning read in a loop leaves the loop on its own Ok(0); a response cell is the database field itself (only borrowing / defaulting adaptors).",
     note="Trusted: astx (syn) template extraction; field-to-validator mapping from MIR slices; config-derived columns are outside the quantifier and only reported as information.",
     technique="call-graph reachability, dominator analysis, AST template/arity matching joined with MIR validator slices (E-ast)", ref="§3 C15"),
  "C16": dict(
-    text="Decides: both patchers apply the seek additively and every builder-emitted control triple carries a relative seek (0 or a difference); Ok(output) only through output.len() == parsed header.output_size; a computed seek is emitted on every path of its iteration and applied on every patcher iteration path except seek==0. patch(old,diff(old,new))==new itself is not decided.",
+    text="Decides: both patchers apply the seek additively and every builder-emitted control triple carries a relative seek (0 or a difference); Ok(output) only through output.len() == parsed header.output_size; a computed seek is emitted on every path of its iteration and applied on every patcher iteration path except seek==0. patch(old,diff(old,new))==new itself is not decided. Also: control entries reach the control block unfiltered; the chunked builder advances its old-file cursor only together with an emitted diff of the same length.",
     note="Trusted: position variables identified by name in the patchers (premise check fails closed if they disappear).",
     technique="provenance slices of the seek operand (sibling agreement builder vs patcher), dominator gating of Ok returns", ref="§3 C16"),
  "C17": dict(
-    text="Decides slot conservation as an ownership rule (a slot taken out of key_map is pushed to free_list, re-inserted or returned, callers inherit) and sibling agreement of the release protocol (unlink with head and tail maintained, slot blanked) in every releasing body. Recency order equal to a textbook LRU is not decided.",
+    text="Decides slot conservation as an ownership rule (a slot taken out of key_map is pushed to free_list, re-inserted or returned, callers inherit) and sibling agreement of the release protocol (unlink with head and tail maintained, slot blanked) in every releasing body. Recency order equal to a textbook LRU is not decided. Also: the checkpoint serialiser writes the whole slot table it is given.",
     note="Trusted: release sites discovered as HashMap::remove on field key_map; obligations anchored at the Some edge of the removal.",
     technique="ownership/escape analysis of the released slot value over the call graph; sibling cross-check of release actions", ref="§3 C17"),
  "C18": dict(
-    text="Decides: overlap validation dominates every file mutation and its Err edge reaches none; the walked slice is sorted in place; validate_spans sorts then scans all adjacent pairs with end(i) > offset(i+1); in-place move only under source > cursor with cursor advance on every iteration; every planned move passed the capacity test; the destination cursor is initialised consistently. Resulting file contents are not decided.",
+    text="Decides: overlap validation dominates every file mutation and its Err edge reaches none; the walked slice is sorted in place; validate_spans sorts then scans all adjacent pairs with end(i) > offset(i+1); in-place move only under source > cursor with cursor advance on every iteration; every planned move passed the capacity test; the destination cursor is initialised consistently. Resulting file contents are not decided. Also: the adjacent-pair overlap comparison is evaluated on every iteration.",
     note="Trusted: variables identified by role (write cursor = the local advanced by span.length).",
     technique="dominator / edge-reachability analysis, contradiction rule on cursor initialisation provenance", ref="§3 C18"),
  "C19": dict(
-    text="Decides: every bit selector in install/download/size code is 0x80 >> (x % 8) with byte index x / 8 of the same x; every mask allocation has a ceiling division; remove_file rebuilds every tag's mask on every iteration; upper-bound guards on an old-mask read derive from that mask's length; remove_tag re-establishes the name->index map for every remaining tag. Query results against a set model are not decided.",
+    text="Decides: every bit selector in install/download/size code is 0x80 >> (x % 8) with byte index x / 8 of the same x; every mask allocation has a ceiling division; remove_file rebuilds every tag's mask on every iteration; upper-bound guards on an old-mask read derive from that mask's length; remove_tag re-establishes the name->index map for every remaining tag. Query results against a set model are not decided. Also: selectors are applied as set / clear / test, never toggled; a mask combination in a loop folds its own accumulator.",
     note="Trusted: selector discovery by shift-amount slices reaching Rem 8 / BitAnd 7; recognised re-index idioms (full rebuild, decrement loop).",
     technique="discovery + sibling agreement on extracted shift/divide shapes (E-table), loop coverage", ref="§3 C19"),
  "C20": dict(
-    text="Decides: key/endpoint/name strings reach Path::join/push/with_extension only through a confinement check or a charset-safe encoding (slices cut at integers); constant-range slices of runtime-length strings in URL/key builders are guarded or fixed width; CacheKey eq/hash ignore memo fields and every identity field feeds the key string; endpoint whitelist covers every character; the entry's file name contains the key string itself. Filesystem behaviour for long names is not decided.",
+    text="Decides: key/endpoint/name strings reach Path::join/push/with_extension only through a confinement check or a charset-safe encoding (slices cut at integers); constant-range slices of runtime-length strings in URL/key builders are guarded or fixed width; CacheKey eq/hash ignore memo fields and every identity field feeds the key string; endpoint whitelist covers every character; the entry's file name contains the key string itself. Filesystem behaviour for long names is not decided. Also: eq/hash reach no memo field through the type's own methods when identity fields are public; String fields of endpoint/key struct parameters are taint sources; a hex piece in a key builder has a fixed width; the key string reaches the file name unmodified.",
     note="Trusted: source tables (as_cache_key results, named string parameters incl. captured upvars of async fns); recognised confinement idioms (Path::components walk, '..'/absolute tests).",
     technique="taint slicing from named string sources to path sinks with encoder cut-offs, dominator-guard search, type-table checks over impl CacheKey", ref="§3 C20"),
 }
